@@ -60,6 +60,11 @@ def fixed_family():
         ("Gap", "0b0000", 0, "-", [("15", 15)]),
         ("lower", "0b0011", 3, None, []),
     ]))
+    F.append(mk("TwoAlts", 4, [
+        ("A", "0", 0, None, [("8", 8), ("0xC", 12)]),
+        ("B", "1", 1, "b", [("9", 9), ("0b1101", 13), ("14", 14)]),
+        ("C", "2", 2, None, []),
+    ]))
     F.append(mk("Bits7", 7, [("X", "64", 64, "x", []), ("Y", "1", 1, None, [("65", 65)])]))
     F.append(mk("Sixteen", None, [(UP[i], lit(i, "dec"), i, None, []) for i in range(16)]))
     v40 = [(UP[i] + "v", lit(i, "u8" if i % 3 == 0 else "dec"), i, None, []) for i in range(26)]
@@ -125,7 +130,11 @@ def render_enum(d, derive_path="Codec"):
     for ident, littext, _, disp, alts in d["variants"]:
         if disp is not None:
             out.append("    #[display('%s')]" % disp)
-        if alts:
+        if alts and d["name"] == "TwoAlts":
+            # one attribute per alternative, display (if any) between them
+            for a in alts:
+                out.append("    #[alt(%s)]" % a[0])
+        elif alts:
             out.append("    #[alt(%s)]" % ", ".join(a[0] for a in alts))
         out.append("    %s = %s," % (ident, littext))
     out.append("}")
